@@ -26,7 +26,9 @@ Definition store_eqv (a b : store) : bool :=
 
 (** what a history consists of: API operations / start-up, and (scaffolding) turning the store into one an older
     version would have left *)
-Inductive action := AOp (o : op) | ALegacy (hs ps : list N) | AHead (d : digest).
+Inductive action := AOp (o : op) | ALegacy (hs ps : list N) | AHead (d : digest) | ACorrupt (n : name) | ANoPruneStartup.
+(* ACorrupt: (scaffolding) a manifest file is truncated, as a crash between create-truncate and write leaves it;
+   ANoPruneStartup: the start-up sequence under OLLAMA_NOPRUNE *)
 (* AHead: HEAD /api/blobs/:digest — GetBlobsPath maps both spellings of a digest to the file sha256-<hex>, hex case kept *)
 
 Definition act_run (size_of : N -> N) (s : store) (a : action) : store * result :=
@@ -34,6 +36,8 @@ Definition act_run (size_of : N -> N) (s : store) (a : action) : store * result 
   | AOp o => let (r, res) := op_run size_of s o in (rs r, res)
   | ALegacy hs ps => (legacy_move s hs ps, ROk)
   | AHead d => (s, match bget (dhex d) s with Some _ => ROk | None => RNotFound end)
+  | ACorrupt n => (match mget n s with Some _ => MkStore (aset name_eqb n Unreadable (mans s)) (blobs s) (debris s) | None => s end, ROk)
+  | ANoPruneStartup => (startup_noprune s, ROk)
   end.
 Definition act_all (size_of : N -> N) (s : store) (l : list action) : store := fold_left (fun s a => fst (act_run size_of s a)) l s.
 
@@ -103,6 +107,8 @@ Definition chk_crash_prefixes_seq (tbl : list (N * N)) (pre : list action) (grp 
 (** recovery (the real start-up sequence) from an observed crash store gives the model's recovery *)
 Definition chk_recover (tbl : list (N * N)) (crashed obs : store) : bool :=
   store_eqv (recover (size_tbl tbl) crashed) obs.
+
+Definition chk_recover_noprune (crashed obs : store) : bool := store_eqv (startup_noprune crashed) obs.
 
 (** re-running the operation on an observed recovered store *)
 Definition chk_redo (tbl : list (N * N)) (recovered : store) (o : op) (res : result) (obs : store) : bool :=
